@@ -320,6 +320,22 @@ theorem step_purged_other (c : Conn α) (l : Label α) (hl : ∀ sid n, l ≠ .e
         · split <;> rfl
         · rfl
   | «end» => rfl
+  | wroute msg ctx ctxNew =>
+    show (wrouteR c msg ctx ctxNew).1.purged = c.purged
+    unfold wrouteR
+    split
+    · rfl
+    · split
+      · simp
+      · split <;> simp
+  | wdeliver i =>
+    show (wdeliverR c i).1.purged = c.purged
+    unfold wdeliverR
+    split
+    · rfl
+    · split
+      · simp [writeTo]
+      · simp [orphanWrite]
 
 /-- the store never evicts what it does not hold: `purged sid ≤ |log sid|` -/
 def InvP (c : Conn α) : Prop := ∀ sid, c.purged sid ≤ ((c.store sid).getD []).length
@@ -344,6 +360,32 @@ theorem grow_step {c : Conn α} (h : Inv c) (l : Label α) : Grow c (step c l) :
   | sclose req retry => exact grow_sclose h _ _
   | «end» => exact ⟨GrowX.refl _, LogLE.refl _, Nat.le_refl _, rfl⟩
   | evict sid n => exact ⟨GrowX.refl _, LogLE.refl _, Nat.le_refl _, rfl⟩
+  | wroute msg ctx ctxNew =>
+    show Grow c (wrouteR c msg ctx ctxNew).1
+    unfold wrouteR
+    split
+    · exact Grow.refl c
+    · split
+      · exact grow_eraseResp c msg
+      · split
+        · exact grow_eraseResp c msg
+        · exact ⟨by simp; exact GrowX.refl _, by simp; exact LogLE.refl _, by simp, by simp⟩
+  | wdeliver i =>
+    show Grow c (wdeliverR c i).1
+    unfold wdeliverR
+    split
+    · exact Grow.refl c
+    · rename_i pw hpw
+      have h1 : Inv ({ c with pendW := c.pendW.eraseIdx i } : Conn α) :=
+        inv_pendW h _ (fun x hx => h.pend_lt x (mem_eraseIdx hx))
+      have g0 : Grow c ({ c with pendW := c.pendW.eraseIdx i } : Conn α) := ⟨GrowX.refl _, LogLE.refl _, Nat.le_refl _, rfl⟩
+      split
+      · exact g0.trans (grow_writeTo h1 _ _ _ _)
+      · refine g0.trans ⟨GrowX.refl _, ?_, Nat.le_refl _, rfl⟩
+        simp only [orphanWrite]
+        split
+        · exact logLE_appendLog _ _ _
+        · exact LogLE.refl _
 
 theorem invP_step {c : Conn α} (hw : Inv c) (h : InvP c) (l : Label α) : InvP (step c l) := by
   by_cases hl : ∀ sid n, l ≠ .evict sid n
@@ -368,6 +410,8 @@ theorem invP_step {c : Conn α} (hw : Inv c) (h : InvP c) (l : Label α) : InvP 
     | get _ _ _ => exact absurd (by intros; simp) hl
     | sclose _ _ => exact absurd (by intros; simp) hl
     | «end» => exact absurd (by intros; simp) hl
+    | wroute _ _ _ => exact absurd (by intros; simp) hl
+    | wdeliver _ => exact absurd (by intros; simp) hl
 
 /-- `purged` only moves forward -/
 theorem purged_mono_step (c : Conn α) (l : Label α) (sid : Nat) : c.purged sid ≤ (step c l).purged sid := by
@@ -387,6 +431,8 @@ theorem purged_mono_step (c : Conn α) (l : Label α) (sid : Nat) : c.purged sid
     | get _ _ _ => exact absurd (by intros; simp) hl
     | sclose _ _ => exact absurd (by intros; simp) hl
     | «end» => exact absurd (by intros; simp) hl
+    | wroute _ _ _ => exact absurd (by intros; simp) hl
+    | wdeliver _ => exact absurd (by intros; simp) hl
 
 theorem inv_runFrom {c : Conn α} (h : Inv c) (ls : List (Label α)) : Inv (run c ls) := by
   induction ls generalizing c with
